@@ -404,7 +404,9 @@ def replace_matching_item(
             anon_val = prefix + _anonymize_value(
                 match.group(sensitive_item_num), pwd_lookup, reserved_words, salt
             )
-            output_line = compiled_re.sub(anon_val, output_line)
+            # Use a function so anon_val is inserted literally (a replacement
+            # string would have its backslashes interpreted as escapes)
+            output_line = compiled_re.sub(lambda _m, _v=anon_val: _v, output_line)
 
         # If any matches existed in this regex group, stop processing more regexes
         if match_found:
